@@ -132,9 +132,12 @@ async def history(loop_between: bool):
         return in_pool, shut, ran
 
 
-bad = run_async(history(False))
-good = run_async(history(True))
-shutil.rmtree(scr, ignore_errors=True)
+try:
+    bad = run_async(history(False))
+    good = run_async(history(True))
+finally:
+    os.chdir('/')
+    shutil.rmtree(scr, ignore_errors=True)
 print('removal and b:succeeded in the same iteration : c back in pool=%s, '
       'shut down=%s, c jobs=%s' % bad)
 print('one iteration between removal and b:succeeded : c back in pool=%s, '
